@@ -927,10 +927,17 @@ class FixedTupleUnmarshaller(AbstractUnmarshaller[compat.TupleT]):
             val: The input value to unmarshal.
         """
         decoded = serdes.load(val)
-        return self.origin(
+        unmarshalled = self.origin(
             routine(v)
             for routine, v in zip(self.ordered_routines, serdes.itervalues(decoded))
         )
+        # Extra members are dropped, but a short input can't satisfy the definition.
+        if len(unmarshalled) != len(self.ordered_routines):
+            raise ValueError(
+                f"{val!r} has too few members for {self.t!r} "
+                f"(expected {len(self.ordered_routines)}, got {len(unmarshalled)})"
+            )
+        return unmarshalled
 
 
 _ST = tp.TypeVar("_ST")
@@ -1004,4 +1011,8 @@ class StructuredTypeUnmarshaller(AbstractUnmarshaller[_ST]):
         decoded = serdes.load(val)
         fields = self.fields_by_var
         kwargs = {f: fields[f](v) for f, v in serdes.iteritems(decoded) if f in fields}
+        # A TypedDict does no validation of its own when it is constructed.
+        for key in getattr(self.t, "__required_keys__", ()):
+            if key not in kwargs:
+                raise ValueError(f"{val!r} is missing required key {key!r} for {self.t!r}")
         return self.t(**kwargs)
